@@ -96,6 +96,9 @@ def run(ctx):
     tier = ctx.tier
     dump = os.path.join(ctx.workdir, "e1", "states")
     ctx.run_tlc("e1", "ViewBoxMC", "ViewBox_%s.cfg" % tier, dump=dump, coverage=False)
+    # E2: the branch choice picks the SVG scale (min ratio for meet, max for slice) for ALL positive integer sizes
+    proved = vlib.apalache(ctx, "viewbox", "ViewBoxInd", [("branch choice = SVG meet/slice scale, unbounded sizes", ["--init=Init", "--inv=BranchPicksSVGScale", "--length=0"])])
+    ctx.assumptions.append("apalache unbounded branch-choice lemma discharged: %s" % proved)
     n = 0
     kinds = {}
     nvar = 2 if tier == "quick" else 3
